@@ -1,4 +1,6 @@
 import GoMC.Props.C15
 #print axioms GoMC.Props.C15.C15_footprint
 #print axioms GoMC.Props.C15.C15_isolation
+#print axioms GoMC.Props.C15.C15_reads_do_not_interfere
+#print axioms GoMC.Props.C15.C15_isolation_any_order
 #print axioms GoMC.Props.C15.C15_history
